@@ -38,6 +38,18 @@ def random_universe(r):
     return u
 
 
+def add_dynamic_array(r, u):
+    """appends a class that the model sees as [size word, length word, n identical reference slots] and the library as ONE dynamic
+    array of references `Ref[C][:]` / `U[:]` of length n (byte for byte the same node), and possibly a class referring to it;
+    returns the index of the array class"""
+    n = len(u)
+    tok = f"r{r.randrange(n)}" if r.random() < 0.6 else "u" + "+".join(map(str, r.sample(range(n), r.randrange(1, n + 1))))
+    u.append(["s", "s"] + [tok] * r.choice([0, 1, 2, 3]))
+    if r.random() < 0.6:
+        u.append(r.choice([[f"r{n}", "s"], [f"u{n}+0", f"r{n}"], ["s", f"u0+{n}"]]))
+    return n
+
+
 def univ_word(u):
     return ";".join(",".join(c) for c in u)
 
@@ -45,14 +57,28 @@ def univ_word(u):
 class Classes:
     """the real classes of a universe"""
 
-    def __init__(self, xo, u, tag, arrays=False):
+    def __init__(self, xo, u, tag, arrays=False, dyn=None):
         """arrays: a run of identical reference fields becomes ONE field holding a static array of references (`Ref[C][n]`,
         `U[n]`) - byte for byte the same layout, but read and written through array.py"""
         self.u, self.cls, self.names, self.where = u, [], [], []
+        self.dyn = dyn
         meta_s, meta_u = type(xo.Struct), type(xo.UnionRef)
         late = []
         for i, fs in enumerate(u):
             d, where, k = {}, {}, 0
+            if i == dyn:
+                # a dynamic array of references: header words at fields 0 and 1, items behind
+                f = fs[2] if len(fs) > 2 else None
+                if f is None or f[0] == "r":
+                    t = xo.Ref[self.cls[int(f[1:]) if f else 0]]
+                else:
+                    t = meta_u(f"Rg{tag}U{i}", (xo.UnionRef,), {"_reftypes": []})
+                    late.append((t, [int(x) for x in f[1:].split("+")]))
+                c = t[:]
+                self.cls.append(c)
+                self.names.append(c.__name__)
+                self.where.append({k_: ("ITEM", k_ - 2) for k_ in range(2, len(fs))})
+                continue
             while k < len(fs):
                 f = fs[k]
                 if f == "s":
@@ -84,12 +110,29 @@ class Classes:
         for t, ms in late:
             t._reftypes = [self.cls[m] for m in ms]
 
+    def make(self, ci, kw, buf):
+        """a new node of class ci (scalar keywords kw) in buf"""
+        if ci == self.dyn:
+            return self.cls[ci](len(self.u[ci]) - 2, _buffer=buf)
+        return self.cls[ci](**kw, _buffer=buf)
+
+    def header(self, ci):
+        """the scalar words of a new dynamic array node"""
+        return [16 + 8 * sum(2 if f[0] == "u" else 1 for f in self.u[ci][2:]), len(self.u[ci]) - 2]
+
     def get(self, o, ci, k):
+        if ci == self.dyn:
+            if k < 2:
+                return [int(o._get_size()), len(o)][k]
+            return o[k - 2]
         name, j = self.where[ci][k]
         v = getattr(o, name)
         return v if j is None else v[j]
 
     def set(self, o, ci, k, val):
+        if ci == self.dyn:
+            o[k - 2] = val
+            return
         name, j = self.where[ci][k]
         if j is None:
             setattr(o, name, val)
@@ -110,7 +153,7 @@ class Classes:
 class CaseRun:
     def __init__(self, xo, cfg, u, tag):
         self.xo, self.cfg, self.u = xo, cfg, u
-        self.C = Classes(xo, u, tag, arrays=bool(cfg.get("arrays")))
+        self.C = Classes(xo, u, tag, arrays=bool(cfg.get("arrays")), dyn=cfg.get("dyn"))
         self.lines, self.expect, self.fail, self.tags = [], [], [], collections.Counter()
         self.ops_done = []
         self.handles = []          # (object, class index) in creation order
@@ -277,7 +320,7 @@ class CaseRun:
         self.b = alloc.make_buffer(self.xo, c["kind"], c["cap"], c["align"], c["grow_step"])
         self.fb = alloc.make_buffer(self.xo, "numpy", 256, 8, None)      # a foreign buffer
         self.emit(f"univ {univ_word(self.u)}")
-        self.expect.append("ok [" + ", ".join(str(self.C.cls[i]._size) for i in range(len(self.u))) + "]")
+        self.expect.append("ok [" + ", ".join(str(self.C.size(i) if i == self.C.dyn else self.C.cls[i]._size) for i in range(len(self.u))) + "]")
         self.emit(f"buf {c['cap']} {c['align']} {c['grow_step'] if c['grow_step'] is not None else '-'}")
         self.expect.append("ok " + self.state_line())
         # a second buffer: destination (and source) of copies across buffers
@@ -288,6 +331,8 @@ class CaseRun:
         self.expect.append("ok " + self.state_line(aux=True))
 
     def kw(self, ci, vs):
+        if ci == self.C.dyn:
+            return {}
         ks = [k for k, f in enumerate(self.u[ci]) if f == "s"]
         return {f"f{k}": v for k, v in zip(ks, vs)}
 
@@ -295,6 +340,13 @@ class CaseRun:
         self.ops_done.append(op)
         kind = op[0]
         self.tags[kind] += 1
+        if self.C.dyn is not None:
+            try:
+                on = op[1] if kind == "new" else self.handles[op[1]][1] if kind not in ("alloc", "grow", "xback") else None
+                if on == self.C.dyn or (kind == "bindval" and op[3] == self.C.dyn) or (kind == "bindobj" and self.handles[op[3]][1] == self.C.dyn):
+                    self.tags["dynamic-array-node." + kind] += 1
+            except Exception:
+                pass
         what = " ".join(map(str, op))
         mem0, ext0 = self.mem(), self.extents()
         # the only previously live region the operation may change: the node it is applied to (write through a reference: the referent)
@@ -313,7 +365,7 @@ class CaseRun:
                 _, ci, vs = op
                 before = self.extents()
                 self.emit(f"new {ci} {','.join(map(str, vs)) or '-'}")
-                o = self.C.cls[ci](**self.kw(ci, vs), _buffer=self.b)
+                o = self.C.make(ci, self.kw(ci, vs), self.b)
                 self.handles.append((o, ci))
                 self.expect.append(f"obj {o._offset} " + self.state_line())
                 self.check_fresh(o._offset, self.C.size(ci), before, what)
@@ -358,12 +410,13 @@ class CaseRun:
                 h, hci = self.handles[hi]
                 before = self.extents()
                 self.emit(f"bindval {h._offset} {k} {ci} {','.join(map(str, vs)) or '-'}")
+                plain = [None] * (len(self.u[ci]) - 2) if ci == self.C.dyn else self.kw(ci, vs)
                 if variant == "foreign":
-                    val = self.C.cls[ci](**self.kw(ci, vs), _buffer=self.fb)
+                    val = self.C.make(ci, self.kw(ci, vs), self.fb)
                 elif self.u[hci][k][0] == "u":
-                    val = (self.C.names[ci], self.kw(ci, vs))
+                    val = (self.C.names[ci], plain)
                 else:
-                    val = self.kw(ci, vs)
+                    val = plain
                 self.C.set(h, hci, k, val)
                 n = self.C.get(h, hci, k)
                 if n is None:
@@ -479,6 +532,8 @@ class CaseRun:
         val = lambda: r.choice([0, 1, 255, 2 ** 31, 2 ** 62 + 5, r.randrange(2 ** 63)])
         if choice == "new" or not hs:
             ci = r.randrange(len(self.u))
+            if ci == self.C.dyn:
+                return ("new", ci, self.C.header(ci))
             n = sum(1 for f in self.u[ci] if f == "s")
             return ("new", ci, [val() for _ in range(r.randrange(n + 1))])
         if choice == "copy":
@@ -511,6 +566,8 @@ class CaseRun:
         if choice == "bindval":
             hi, k = r.choice(refslots)
             ci = r.choice(self.C.members(hs[hi][1], k))
+            if ci == self.C.dyn:
+                return ("bindval", hi, k, ci, self.C.header(ci), r.choice(["plain", "foreign"]))
             n = sum(1 for f in self.u[ci] if f == "s")
             return ("bindval", hi, k, ci, [val() for _ in range(r.randrange(n + 1))], r.choice(["plain", "foreign"]))
         if choice == "bindnull":
@@ -523,14 +580,14 @@ class CaseRun:
                 if t is not None:
                     ci = self.C.names.index(type(t).__name__)
                     for j, f in enumerate(self.u[ci]):
-                        if f == "s":
+                        if f == "s" and ci != self.C.dyn:
                             cands.append((hi, k, j))
             if cands:
                 hi, k, j = r.choice(cands)
                 return ("setvia", hi, k, j, val())
             choice = "setscal"
         if choice == "setscal":
-            cands = [(hi, k) for hi, (_, ci) in enumerate(hs) for k, f in enumerate(self.u[ci]) if f == "s"]
+            cands = [(hi, k) for hi, (_, ci) in enumerate(hs) for k, f in enumerate(self.u[ci]) if f == "s" and ci != self.C.dyn]
             if cands:
                 hi, k = r.choice(cands)
                 return ("setscal", hi, k, val())
@@ -605,6 +662,12 @@ def corpus_cases():
          [("new", 0, [5, 6]), ("new", 1, [7]), ("bindobj", 1, 1, 0), ("bindobj", 1, 2, 0), ("new", 2, [9]), ("bindobj", 2, 0, 1),
           ("bindobj", 2, 1, 1), ("bindobj", 2, 3, 0), ("xcopy", 2), ("xcopy", 0), ("xback", 1), ("setvia", 2, 1, 0, 77), ("xcopy", 2),
           ("xback", 0), ("bindnull", 2, 0), ("xcopy", 2), ("copy", 2)]),
+        # a DYNAMIC array of references (class 2: size word, length word, three slots) as a node and as a referent
+        ({"kind": "numpy", "cap": 64, "align": 8, "grow_step": None, "dyn": 2}, [["s"], ["s", "r0"], ["s", "s", "r1", "r1", "r1"], ["r2", "s", "u2+0"]],
+         [("new", 0, [4]), ("new", 1, [5]), ("bindobj", 1, 1, 0), ("new", 2, [40, 3]), ("bindobj", 2, 2, 1), ("bindobj", 2, 4, 1),
+          ("new", 3, [6]), ("bindobj", 3, 0, 2), ("bindobj", 3, 2, 2), ("setvia", 2, 2, 0, 9), ("copy", 2), ("copy", 3), ("xcopy", 3),
+          ("bindval", 3, 0, 2, [40, 3], "plain"), ("bindval", 3, 2, 2, [40, 3], "foreign"), ("bindnull", 2, 2), ("upd", 4, 2), ("xcopy", 2),
+          ("xback", 0), ("alloc", 300, True), ("setvia", 2, 4, 0, 11)]),
         # capacity 0, members listed in reverse order
         ({"kind": "numpy", "cap": 0, "align": 64, "grow_step": 1}, [["s"], ["s", "s"], ["u1+0", "u0"]],
          [("new", 2, []), ("new", 0, [8]), ("new", 1, [1, 2]), ("bindobj", 0, 0, 1), ("bindobj", 0, 1, 1), ("bindobj", 0, 0, 2),
@@ -630,7 +693,11 @@ def run_all(tier, seed, n=None):
     if n:
         ncases = n
     for _ in range(ncases):
-        runs.append(CaseRun(xo, random_cfg(r), random_universe(r), _newtag()).run_random(r, r.randrange(2, nops)))
+        cfg_, u_ = random_cfg(r), random_universe(r)
+        if r.random() < 0.35:
+            cfg_["dyn"] = add_dynamic_array(r, u_)
+            cfg_["arrays"] = False
+        runs.append(CaseRun(xo, cfg_, u_, _newtag()).run_random(r, r.randrange(2, nops)))
     answers = common.run_driver_sharded("rg", [c.lines for c in runs])
     mismatches, failures, tags, distinct, nlines = [], [], collections.Counter(), set(), 0
     for c, got in zip(runs, answers):
